@@ -115,7 +115,15 @@ def compare_batch(out: Outcome, runners: list[dets.Runner], rtol: float = 1e-9, 
         k = pow2_shift(r)
         shifts.append(k)
         lines.extend(r.lines if k == 0 else [rescale_line(l, k) for l in r.lines])
+        if r.lines:
+            lines.append("bc " + r.inst)      # branch tags this trace hit in the MODEL (measurement only: `model_branches` in the evidence)
     res = run_driver(lines)
+    for r, (a, b) in zip(runners, spans):
+        if r.lines and b < len(res) and res[b].startswith("bc"):
+            for t in res[b].split(" ")[1:]:
+                tag, _, c = t.rpartition("=")
+                if tag and c.isdigit():
+                    out.branches[tag] = out.branches.get(tag, 0) + int(c)
     for (a, b), k in zip(spans, shifts):
         if k:
             res[a:b] = [unscale_obs(o, k) for o in res[a:b]]
